@@ -424,11 +424,35 @@ pub fn mutate_bytes(u: &mut Unstructured, b: &mut Vec<u8>) -> &'static str {
     if b.is_empty() {
         return "empty";
     }
-    match g::byte(u) % 12 {
+    match g::byte(u) % 13 {
         0 => {
             let n = g::idx(u, b.len());
             b.truncate(n);
             "truncate"
+        }
+        12 => {
+            // a copy of an earlier (or the same) section placed after a later one, optionally with
+            // a custom section right in front of it: always out of order / duplicated
+            let secs = scan_sections(b);
+            if !secs.is_empty() {
+                let i = g::idx(u, secs.len());
+                let j = i + g::idx(u, secs.len() - i);
+                let (a0, a1) = secs[i];
+                let at = secs[j].1;
+                let mut ins = Vec::new();
+                if g::ratio(u, 2, 3) {
+                    // custom section: id 0, size, name
+                    let name = b"x";
+                    ins.extend_from_slice(&[0x00, (1 + name.len()) as u8, name.len() as u8]);
+                    ins.extend_from_slice(name);
+                }
+                ins.extend_from_slice(&b[a0..a1]);
+                let mut nb = b[..at].to_vec();
+                nb.extend_from_slice(&ins);
+                nb.extend_from_slice(&b[at..]);
+                *b = nb;
+            }
+            "misplaced-section"
         }
         1 | 2 => {
             let i = g::idx(u, b.len());
@@ -495,31 +519,7 @@ pub fn mutate_bytes(u: &mut Unstructured, b: &mut Vec<u8>) -> &'static str {
         }
         _ => {
             // swap two whole sections if the module parses far enough to find them
-            let mut secs = Vec::new();
-            let mut p = 8;
-            while p < b.len() {
-                let start = p;
-                p += 1;
-                let mut size = 0usize;
-                let mut shift = 0;
-                loop {
-                    if p >= b.len() || shift > 28 {
-                        break;
-                    }
-                    let x = b[p];
-                    p += 1;
-                    size |= ((x & 0x7f) as usize) << shift;
-                    shift += 7;
-                    if x & 0x80 == 0 {
-                        break;
-                    }
-                }
-                p = p.saturating_add(size);
-                if p > b.len() {
-                    break;
-                }
-                secs.push((start, p));
-            }
+            let secs = scan_sections(b);
             if secs.len() >= 2 {
                 let i = g::idx(u, secs.len() - 1);
                 let (a0, a1) = secs[i];
@@ -538,4 +538,34 @@ pub fn mutate_bytes(u: &mut Unstructured, b: &mut Vec<u8>) -> &'static str {
             "section-shuffle"
         }
     }
+}
+
+/// (start, end) byte ranges of the top-level sections as far as they can be delimited.
+fn scan_sections(b: &[u8]) -> Vec<(usize, usize)> {
+    let mut secs = Vec::new();
+    let mut p = 8;
+    while p < b.len() {
+        let start = p;
+        p += 1;
+        let mut size = 0usize;
+        let mut shift = 0;
+        loop {
+            if p >= b.len() || shift > 28 {
+                break;
+            }
+            let x = b[p];
+            p += 1;
+            size |= ((x & 0x7f) as usize) << shift;
+            shift += 7;
+            if x & 0x80 == 0 {
+                break;
+            }
+        }
+        p = p.saturating_add(size);
+        if p > b.len() {
+            break;
+        }
+        secs.push((start, p));
+    }
+    secs
 }
